@@ -5,5 +5,6 @@ wt=/tmp/seedwt-$g
 git -C /repo worktree add --detach $wt HEAD >/dev/null 2>&1
 out=/tmp/seedprompt-$g.txt; : > $out
 echo "You have SEVERAL independent tasks of the same kind, one per property listed below; do them one after the other in the same worktree (reset it between tasks). Each task description follows." >> $out
-for id in "$@"; do echo; echo "==================== TASK for property $id ===================="; python3 /verif/tools/seed_prompt.py $id $wt 2; done >> $out
+for id in "$@"; do echo; echo "==================== TASK for property $id ===================="; python3 /verif/tools/seed_prompt.py $id $wt ${SEED_N:-2}; done >> $out
+echo "IMPORTANT: never use git stash (shared between all worktrees; other agents work in parallel); use git diff > file and git checkout -- . instead. Use scratch file names under /tmp that start with your group name." >> $out
 echo $out
